@@ -756,9 +756,12 @@ func main() {
 	}
 	r := hlib.NewRng(opts.Seed)
 	ncfg, nj, ng, ne, nip := 60, 24, 12, 8, 4
+	nsm, nsd := 4, 16 // smuggle stream: per suitable configuration / per dedicated configuration
 	if opts.Thorough() {
 		ncfg, nj, ng, ne, nip = 400, 40, 20, 12, 6
+		nsm, nsd = 8, 80
 	}
+	rs := hlib.NewRng(opts.Seed + 0x39000) // own generator: the other streams stay as they were
 	cfgs := fixedCfgs()
 	for len(cfgs) < ncfg {
 		cfgs = append(cfgs, genCfg(r))
@@ -771,6 +774,13 @@ func main() {
 			rq, sh := genJReq(r, c, clients)
 			job.J = append(job.J, rq)
 			shapes[ci] = append(shapes[ci], sh)
+		}
+		if aim, ok := aimOf(c, clients); ok {
+			for i := 0; i < nsm; i++ {
+				rq, sh := genSmuggle(rs, c, aim)
+				job.J = append(job.J, rq)
+				shapes[ci] = append(shapes[ci], sh)
+			}
 		}
 		for i := 0; i < ng; i++ {
 			job.G = append(job.G, GReq{Client: hlib.Pick(r, clients), Full: hlib.Pick(r, gFulls)})
@@ -798,6 +808,21 @@ func main() {
 			job.IPs = append(job.IPs, h)
 		}
 		jobs[ci] = job
+	}
+	for _, c := range smuggleCfgs() {
+		aim, ok := aimOf(c, clients)
+		if !ok {
+			continue
+		}
+		job := &Job{Cfg: c}
+		var shs []string
+		job.J, shs = canonicalSmuggle(c, aim)
+		for i := 0; i < nsd; i++ {
+			rq, sh := genSmuggle(rs, c, aim)
+			job.J = append(job.J, rq)
+			shs = append(shs, sh)
+		}
+		cfgs, jobs, shapes = append(cfgs, c), append(jobs, job), append(shapes, shs)
 	}
 	results := make([]*Result, len(jobs))
 	errs := make([]error, len(jobs))
